@@ -13,8 +13,8 @@ from .core import Result, Violation, HarnessError, EventLog, bump, rng_for, sha_
 PROP = 'C20'
 TIMEOUT = 600
 BATCHES = {
-    'quick': [('P', 700), ('A', 120), ('B', 120), ('S', 160)],
-    'thorough': [('P', 24000), ('A', 5000), ('B', 5000), ('S', 6000)],
+    'quick': [('P', 600), ('A', 110), ('B', 110), ('S', 150)],
+    'thorough': [('P', 12000), ('A', 2500), ('B', 2500), ('S', 3500)],
 }
 CHUNK = {'P': 6, 'A': 3, 'B': 3, 'S': 3}
 COST = {'P': 1, 'A': 3, 'B': 3, 'S': 3}
@@ -49,7 +49,7 @@ STACKS = [[0, 90, 90, 0], [0, 90, -45, 45], [45, -45, 0, 90, 30], [0], [30, -30,
 PANEL_OPS = ['k0', 'k0', 'kG0', 'kM', 'kA', 'cA', 'kT', 'fint', 'fext', 'lb', 'lb_dense', 'freq', 'freq_dense', 'static',
              'static_nl', 'uvw', 'strain', 'stress', 'plot', 'save_load', 'get_size', 'set_cores', 'k0_c', 'kG0_c',
              'mod_lb', 'mod_freq', 'mod_static', 'lb_c', 'k0_F', 'kT_F', 'fint_F', 'lb_cF']
-ASM_OPS = ['k0', 'k0', 'kG0', 'kM', 'kT', 'fint', 'fext', 'k0_conn', 'uvw', 'strain', 'stress', 'set_cores', 'get_size',
+ASM_OPS = ['k0', 'k0', 'kG0', 'kG0', 'kM', 'kM', 'kT', 'kT', 'fint', 'fext', 'fext', 'uvw', 'strain', 'stress', 'k0_conn', 'uvw', 'strain', 'stress', 'set_cores', 'get_size',
            'mod_lb', 'mod_freq', 'mod_static', 'panel_k0', 'plot', 'an_static', 'an_static_nl', 'panel_kM', 'panel_fext']
 BAY_OPS = ['k0', 'k0', 'kG0', 'kM', 'kA', 'cA', 'fext', 'uvw_skin', 'uvw_stiffener', 'get_size', 'set_cores',
            'mod_lb', 'mod_freq', 'mod_static', 'plot_skin', 'save_load', 'stiff_k0', 'plot_stiffener']
@@ -65,24 +65,24 @@ def gen_flags(rng, p=0.2):
     return {f: float(rng.choice([0, 1])) for f in FLAGS if rng.random() < p}
 
 
-def gen_panel_def(rng, allow_none_model=True, mmax=4):
-    model = rng.choice(['plate_clt_donnell_bardell', 'cpanel_clt_donnell_bardell', 'plate_clt_donnell_bardell_w',
+def gen_panel_def(rng, allow_none_model=True, mmax=5):
+    model = rng.choice(['plate_clt_donnell_bardell'] * 3 + ['cpanel_clt_donnell_bardell'] * 3 + ['plate_clt_donnell_bardell_w',
                         'kpanel_clt_donnell_bardell'] + ([None, None] if allow_none_model else []))
     geom = rng.choice(['plate', 'cpanel', 'kpanel']) if model is None else (
         'plate' if 'plate' in model else ('cpanel' if 'cpanel' in model else 'kpanel'))
     d = {'model': model, 'geom': geom, 'a': rng.uniform(0.5, 3.0), 'b': rng.uniform(0.3, 2.0),
          'r': rng.uniform(2.0, 30.0), 'alphadeg': rng.uniform(2.0, 25.0),
-         'm': rng.randint(2, mmax), 'n': rng.randint(2, mmax), 'flags': gen_flags(rng),
+         'm': rng.randint(3, mmax), 'n': rng.randint(3, mmax), 'flags': gen_flags(rng),
          'stack': rng.choice(STACKS), 'plyt': 1.25e-4, 'per_ply': rng.random() < 0.2,
          'offset': rng.choice([0.0, 0.0, 2e-4, -1e-4]),
          'Nxx': rng.choice([None, -1.0, -50.0]), 'Nyy': rng.choice([None, None, -3.0]), 'Nxy': rng.choice([None, None, 2.0]),
          'Nxx_cte': rng.choice([None, None, -5.0]),
-         'mu': rng.choice([1.3e3, 1.3e3, None]),
+         'mu': rng.choice([1.3e3] * 7 + [None]),
          'aero': rng.choice(['beta', 'mach', 'none']), 'flow': rng.choice(['x', 'x', 'y']),
          'forces': [[rng.uniform(0.1, 0.9), rng.uniform(0.1, 0.9), 0.0, 0.0, rng.uniform(-50, 50)] for _ in range(rng.randint(0, 2))],
          'forces_inc': [[rng.uniform(0.1, 0.9), rng.uniform(0.1, 0.9), rng.uniform(-5, 5), 0.0, rng.uniform(-100, 100)]
                         for _ in range(rng.randint(0, 2))],
-         'nx': rng.randint(4, 7), 'ny': rng.randint(4, 7), 'num_eigvalues': rng.randint(1, 3)}
+         'nx': rng.randint(4, 7), 'ny': rng.randint(4, 7), 'num_eigvalues': rng.randint(1, 2)}
     return d
 
 
@@ -129,7 +129,7 @@ def generate(seed, batch):
         scen['ops'] = gen_ops(rng, PANEL_OPS, heavy=('plot', 'static_nl', 'save_load'))
     elif batch == 'A':
         scen['kind'] = 'assembly'
-        base = gen_panel_def(rng, allow_none_model=True, mmax=3)
+        base = gen_panel_def(rng, allow_none_model=True, mmax=4)
         base['model'] = rng.choice(['plate_clt_donnell_bardell', 'cpanel_clt_donnell_bardell', None])
         base['geom'] = 'cpanel' if (base['model'] and 'cpanel' in base['model']) else rng.choice(['plate', 'cpanel'])
         if base['model'] and 'plate' in base['model']:
@@ -138,8 +138,8 @@ def generate(seed, batch):
         panels = []
         for i in range(npan):
             d = dict(base)
-            d['m'] = rng.randint(2, 3)
-            d['n'] = rng.randint(2, 3)
+            d['m'] = rng.randint(3, 4)
+            d['n'] = rng.randint(3, 4)
             d['offset'] = rng.choice([0.0, 0.0, 2e-4, -1e-4])
             d['group'] = rng.choice(['g1', 'g1', 'g2'])
             d['flags'] = {f: 1.0 for f in FLAGS if f[1] in '12' and rng.random() < 0.5}
@@ -159,11 +159,11 @@ def generate(seed, batch):
         scen['defn'] = {'a': rng.uniform(0.8, 3.0), 'b': rng.uniform(0.5, 2.0), 'r': rng.choice([None, None, rng.uniform(3., 20.)]),
                         'model': rng.choice(['explicit', 'explicit', None]),
                         'm': rng.randint(2, 4), 'n': rng.randint(2, 4), 'stack': rng.choice(STACKS), 'plyt': 1.25e-4,
-                        'mu': rng.choice([1.3e3, 1.3e3, None]), 'flags': gen_flags(rng, 0.15),
+                        'mu': rng.choice([1.3e3] * 5 + [None]), 'flags': gen_flags(rng, 0.15),
                         'aero': rng.choice(['beta', 'mach', 'none']), 'flow': rng.choice(['x', 'y']),
                         'Nxx': rng.choice([None, -1.0]),
                         'forces_skin': [[rng.uniform(0.1, 0.9), rng.uniform(0.1, 0.9), 0.0, 0.0, rng.uniform(-50, 50)]
-                                        for _ in range(rng.randint(0, 2))],
+                                        for _ in range(rng.choice([0, 0, 0, 1]))],
                         'stiffeners': [{'kind': kd, 'mb': rng.randint(2, 3), 'nb': rng.randint(2, 3), 'mf': rng.randint(2, 3),
                                         'nf': rng.randint(2, 3), 'bb': rng.uniform(0.05, 0.15), 'bf': rng.uniform(0.05, 0.15),
                                         'fforce': rng.random() < 0.5} for kd in kinds]}
@@ -620,7 +620,16 @@ def run_panel_op(p, op, env, d):
         return p.stress(c, xs=xs, ys=ys, NLterms=op['nl'], **kw)
     if name == 'plot':
         import matplotlib.pyplot as plt
-        ax = p.plot(env.c(op['ci'], size), vec=op['vec'], gridx=4, gridy=4, filename='plot.png', dpi=30)
+        kw = dict(gridx=4, gridy=4)
+        if op['nl']:
+            # caller-supplied 2-D point arrays and a deformed plot: the arrays must come back untouched
+            np_ = env.np
+            X, Y = np_.meshgrid(np_.linspace(0, d['a'], 4), np_.linspace(0, d['b'], 3))
+            X, Y = np_.ascontiguousarray(X), np_.ascontiguousarray(Y)
+            env.track(X, 'plot xs')
+            env.track(Y, 'plot ys')
+            kw = dict(xs=X, ys=Y, deform_u=bool(op['pi']), deform_u_sf=50.)
+        ax = p.plot(env.c(op['ci'], size), vec=op['vec'], filename='plot.png', dpi=30, **kw)
         plt.close('all')
         return 'plotted'
     if name == 'get_size':
@@ -846,7 +855,7 @@ def op_key(kind, op):
     if name in ('freq', 'freq_dense'):
         parts.append('a%d' % op['atype'])
     if name == 'plot':
-        parts.append(op['vec'])
+        parts += [op['vec'], 'x%d%d' % (int(op['nl']), op['pi'])]
     if name == 'uvw_stiffener':
         parts += ['s%d' % op['si'], op['region']]
     if name in ('panel_k0', 'panel_kM', 'panel_fext'):
@@ -1072,6 +1081,7 @@ def execute(scen):
                 if not prev_ops:
                     bump(res['probes'], 'first_call_%s_%s' % (kind, name))
             ref = refs[key]
+            bump(res['probes'], '%s_%s_%s' % ('ret' if out[0] == 'value' else 'exc', kind, name))
             log.add(idx, key, out[0], digest_of(out[1]) if out[0] == 'value' else out[1])
             ctx = {'kind': kind, 'op': key, 'index': idx, 'history': [o for o in prev_ops][-8:], 'first_ops': prev_ops[:2]}
             if out[0] != ref[0]:
